@@ -28,7 +28,7 @@ EXTRA_IMPORTS = ['Props.Stack']
 EXTRA_BUILD = ['+Gen.EquivObservable']
 GEN_IMPORTS = ['Gen.EquivObservable']
 GEN_THEOREMS = ['Vakt.GenEquiv.gen_observable_add', 'Vakt.GenEquiv.gen_observable_update', 'Vakt.GenEquiv.gen_observable_delete',
-                'Vakt.GenEquiv.gen_observable_get', 'Vakt.GenEquiv.gen_observable_get_all']
+                'Vakt.GenEquiv.gen_observable_get', 'Vakt.GenEquiv.gen_observable_get_all', 'Vakt.GenEquiv.gen_observable_retrieve_all']
 FLOOR = {'quick': 100, 'thorough': 1500}
 ASSUMPTIONS = ["functools.lru_cache's eviction order is modelled (most recently used first, trimmed to capacity) and compared "
                'hit by hit with the real cache; the general within-capacity clause is a theorem about that model '
